@@ -6,8 +6,9 @@
    what is proved for [frun] holds for [run_fault st] with ANY fault state st — in particular
    [FWait k pers] for every k and both modes.
 
-   The frame discipline is the one of CrashGeneral.v, with two rules made robust to faults: a
-   failed [MkTmp] answers an error, a failed [OpenWr] leaves the temp file as it was.  The API
+   The frame discipline is the one of CrashGeneral.v, with three rules made robust to faults: a
+   failed [MkTmp] answers an error, a failed [OpenWr] leaves the temp file as it was, a failed
+   [WriteChunk] (full disk) answers an error and leaves the temp file as it was.  The API
    proofs are those of CrashGeneral.v, re-run for the robust predicate [SafeF]. *)
 From HS Require Import Base PyVal FS Ops Spec Sched RefineLemmas Refine SeqProps CrashFault Integrity
   CrashGeneral.
@@ -68,13 +69,14 @@ Section FrameF.
 
   Definition ansokF (o : op) (G : ghost) (x : ans) : Prop :=
     match o with
-    | MkTmp _ _ => ansok w0 p o G x \/ exists e, x = AErr e
+    | MkTmp _ _ | WriteChunk _ => ansok w0 p o G x \/ exists e, x = AErr e
     | _ => ansok w0 p o G x
     end.
 
   Definition opnextF (o : op) (G : ghost) (x : ans) : ghost :=
     match o, x with
     | OpenWr _ _, AErr _ => reset (gT G)
+    | WriteChunk _, AErr _ => reset (gT G)
     | _, _ => opnext o G x
     end.
 
@@ -93,8 +95,12 @@ Section FrameF.
     destruct (step_sound w0 p pubO pubP o G w x w' Hag HW Hpre Hex) as (Ha & Hg & HW').
     split; [|split; [|exact HW']].
     - destruct o; simpl; auto.
-    - destruct o; simpl; auto. destruct x; simpl; auto.
-      destruct w as [m L]. simpl in Hex. inversion Hex.
+    - destruct o; simpl; auto; destruct x; simpl; auto.
+      + (* WriteChunk answering an error: impossible without a fault, the temp file is the thread's own *)
+        simpl in Hpre. destruct Hpre as [Hown (b & n & j & HT)]. destruct Hag as (HaT & _).
+        pose proof (HaT _ _ Hown HT) as Hl. destruct w as [m L]. simpl in Hex, Hl.
+        rewrite Hl in Hex. inversion Hex.
+      + destruct w as [m L]. simpl in Hex. inversion Hex.
   Qed.
 
   (* a fault: the operation answers an error and nothing happened *)
@@ -112,10 +118,17 @@ Section FrameF.
       unfold tdel in Hv. destruct (addr_eqb y a); [discriminate|auto].
   Qed.
 
-  Lemma opnextF_exec : forall o G w x w', exec_op 0 o w = Some (x, w') -> opnextF o G x = opnext o G x.
+  (* without a fault the robust successor state is the one of CrashGeneral.v ([OpenWr] never answers
+     an error; [WriteChunk] on the thread's own temp file, known to the ghost state, does not either) *)
+  Lemma opnextF_exec : forall o G w x w',
+    agreeG p G w -> oppre w0 p pubO pubP o G ->
+    exec_op 0 o w = Some (x, w') -> opnextF o G x = opnext o G x.
   Proof.
-    intros o G w x w' H. destruct o; simpl; auto. destruct x; auto.
-    destruct w. simpl in H. inversion H.
+    intros o G w x w' Hag Hpre H. destruct o; simpl; auto; destruct x; auto.
+    - simpl in Hpre. destruct Hpre as [Hown (b & n & j & HT)]. destruct Hag as (HaT & _).
+      pose proof (HaT _ _ Hown HT) as Hl. destruct w as [m L]. simpl in H, Hl.
+      rewrite Hl in H. inversion H.
+    - destruct w. simpl in H. inversion H.
   Qed.
 
   (* soundness for every fault plan *)
@@ -654,7 +667,7 @@ Section ApiFault.
     induction k as [|k IH]; intros G t b n j Hown HT.
     - simpl. rewrite Nat.add_0_r. exact HT.
     - simpl. unfold mbind, unit_op. simpl. split; [split; eauto|].
-      intros x ->. simpl. rewrite HT.
+      intros x [->|[e ->]]; [|simpl; exact I]. simpl. rewrite HT.
       replace (j + S k) with (S j + k) by lia.
       apply (IH (reset (tupd (gT G) t (CData b n (S j)))) t b n (S j)); auto. apply tupd_eq.
   Qed.
@@ -1385,7 +1398,8 @@ Proof.
 Qed.
 
 (* WHAT IS PROVED, for every start state satisfying Inv, every call naming p, EVERY fault state
-   (so every k and both modes):
+   (so every k and both modes; the fault sites are those of [Sched.is_site], the chunk writes into
+   temp files and the append to a cid list — a full disk — included):
    (F1) the other pids are untouched (in full under no_dangling for the pid looked at), and
         retrieve_object never serves wrong bytes to anybody; the content served to p is its old
         one or the call's;
@@ -1772,7 +1786,7 @@ Proof.
   intros m L p c l j Hp Hc Hm HL1 HL2 HL3. unfold tag_post.
   unfold tag_object, store_refs_body, and_sc, notm, write_refs_tmp, is_in_refs, read_lines,
     update_refs_add, verify_refs, read_cid, is_in_refs, read_lines.
-  fgo. do 11 (site j). val_fin.
+  fgo. do 12 (site j). val_fin.
 Qed.
 
 Lemma tag_one_off_absent : forall m L p c j,
@@ -1854,8 +1868,8 @@ Example duplicate_store_fault_untags :
   let c := CStore (Some 1) SrcPath 7 1 VSzNone VCkNone in
   run_seq empty_world (api c) = Some (w1, Val (VMeta 7 1)) /\
   run_seq w1 (api c) = Some (w1, Exn EHashStoreRefsAlreadyExists) /\
-  site_op 3 w1 (api c) = Some (MkDirs (APidRef 1)) /\
-  run_fault (FWait 3 false) w1 (api c) = Some (mkWorld [(AObj 7, CData 7 1 1)] [], Exn EOSError) /\
+  site_op 4 w1 (api c) = Some (MkDirs (APidRef 1)) /\
+  run_fault (FWait 4 false) w1 (api c) = Some (mkWorld [(AObj 7, CData 7 1 1)] [], Exn EOSError) /\
   run_fault (FWait 0 false) w1 (api (CTag 1 7)) = Some (mkWorld [(AObj 7, CData 7 1 1)] [], Exn EOSError).
 Proof. vm_compute. repeat split; reflexivity. Qed.
 
@@ -1863,16 +1877,36 @@ Proof. vm_compute. repeat split; reflexivity. Qed.
 (* 9. (F4) ONE-OFF faults in store_object                                              *)
 (* ================================================================================== *)
 
-Lemma nosite_write_chunks : forall t n, nosite (write_chunks t n).
+(* a one-off fault planned j sites ahead meets the k chunk writes into a temp file that holds i
+   chunks: the first [min j k] writes succeed; if j < k the next one fails — it writes nothing, the
+   program receives OSError and the fault is spent — otherwise all k succeed and the fault is k sites
+   nearer *)
+Lemma rfs_write_chunks : forall k t b n i j m L,
+  lookup t m = Some (CData b n i) ->
+  exists m',
+    rfs (FWait j false) (mkWorld m L) (write_chunks t k) =
+      Some (mkWorld m' L,
+            (if j <? k then Exn EOSError else Val tt),
+            (if j <? k then FDone else FWait (j - k) false)) /\
+    forall x, lookup x m' = if addr_eqb x t then Some (CData b n (i + Nat.min j k)) else lookup x m.
 Proof.
-  induction n as [|n IH]; simpl; auto.
-  split; [reflexivity|]. intros x. destruct x; simpl; auto.
+  induction k as [|k IH]; intros t b n i j m L Ht.
+  - exists m. split.
+    + cbn [write_chunks]. rewrite rfs_ret. cbn [Nat.ltb Nat.leb]. rewrite Nat.sub_0_r. reflexivity.
+    + intros x. rewrite Nat.min_0_r, Nat.add_0_r.
+      destruct (addr_eqb x t) eqn:E; auto. apply addr_eqb_true in E. subst. auto.
+  - cbn [write_chunks]. rewrite rfs_mbind. destruct j as [|j].
+    + rewrite rfs_unit_site_0 by reflexivity. exists m. split; [reflexivity|].
+      intros x. cbn [Nat.min]. rewrite Nat.add_0_r.
+      destruct (addr_eqb x t) eqn:E; auto. apply addr_eqb_true in E. subst. auto.
+    + rewrite rfs_unit_site_S by reflexivity. rewrite run_writechunk, Ht.
+      destruct (IH t b n (S i) j (update t (CData b n (S i)) m) L) as (m' & Hr & Hl).
+      { apply lookup_update_eq. }
+      exists m'. split.
+      * rewrite Hr. reflexivity.
+      * intros x. rewrite Hl, lookup_update. cbn [Nat.min]. rewrite Nat.add_succ_r.
+        destruct (addr_eqb x t); reflexivity.
 Qed.
-
-Lemma rfs_write_chunks : forall t n st w,
-  rfs st w (write_chunks t n) =
-  match run_seq w (write_chunks t n) with Some (w', a) => Some (w', a, st) | None => None end.
-Proof. intros. apply rfs_nosite. apply nosite_write_chunks. Qed.
 
 Lemma rfs_peek : forall cls x st w,
   rfs st w (peek cls x) = match run_seq w (peek cls x) with Some (w', r) => Some (w', r, st) | None => None end.
@@ -1954,12 +1988,17 @@ Proof.
   unfold open_source, move_and_get_checksums. cbv zeta. fgo.
   destruct j as [|j]; [fgo; pre_fin Hc|].
   fgo. destruct j as [|j]; [fgo; pre_fin Hc|].
-  fgo2. rewrite rfs_write_chunks.
+  fgo2.
   match goal with
-  | |- context [run_seq (mkWorld ?M ?L0) (write_chunks ?t _)] =>
-      destruct (run_write_chunks n t b n 0 M L0) as (m1 & Hr & Hm1); [apply lookup_update_eq|]
+  | |- context [rfs (FWait j false) (mkWorld ?M ?L0) (write_chunks ?t _)] =>
+      destruct (rfs_write_chunks n t b n 0 j M L0) as (m1 & Hr & Hm1); [apply lookup_update_eq|]
   end.
-  rewrite Hr. cbn [Nat.add] in Hm1. fgo.
+  rewrite Hr. cbn [Nat.add] in Hm1.
+  destruct (j <? n) eqn:Ejn.
+  { (* one of the chunk writes fails (full disk): the temp file is removed, nothing else was touched *)
+    fgo. pre_fin Hc. }
+  apply Nat.ltb_ge in Ejn. rewrite (Nat.min_r _ _ Ejn) in Hm1.
+  generalize (j - n). clear j Ejn Hr. intros j. fgo.
   destruct (lookup (AObj b) m) as [o|] eqn:Ho; cbn [verify_object]; fgo.
   - (* the object exists *)
     destruct j as [|j]; [fgo; pre_fin Hc|]. fgo. use_tag Hc.
@@ -2005,7 +2044,8 @@ Proof.
 Qed.
 
 (* (F4) for store_object(pid, new or duplicate content), every start state in which p is unbound,
-   every one-off fault: if the call raises, p is unbound — no reference, in no cid list — no lock
+   every one-off fault (a failing write of any of the n chunks included: [rfs_write_chunks]): if the
+   call raises, p is unbound — no reference, in no cid list — no lock
    is left, and the same call issued again succeeds and p is then retrievable with its content *)
 Theorem store_one_off_fault : forall w0 p b n j w e,
   let c := CStore (Some p) SrcPath b n VSzNone VCkNone in
